@@ -78,7 +78,14 @@ def poisson(
             seed,
         )
         if crop_corner:
-            mask *= r < 1
+            # The calibration block is filled with integer bounds, so its
+            # border can sit at r == 1 when it reaches the edge of the grid.
+            keep = r < 1
+            keep[
+                int(ny / 2 - calib[-2] / 2) : int(ny / 2 + calib[-2] / 2),
+                int(nx / 2 - calib[-1] / 2) : int(nx / 2 + calib[-1] / 2),
+            ] = True
+            mask *= keep
 
         actual_accel = img_shape[-1] * img_shape[-2] / np.sum(mask)
 
